@@ -191,7 +191,7 @@ func (c ImportCase) NumImports() int {
 //	2 deviations under the default interleaving as one file.
 func EnumCases(tier string) (cases []ImportCase, rule string) {
 	thorough := tier == "thorough"
-	threeTouching, noiseCases, stretched := 0, 0, 0
+	threeTouching, noiseCases, stretched, contradicting := 0, 0, 0, 0
 	if thorough {
 		// the long-running items first: captures large enough to make the importer use snapshots
 		for _, set := range ref.Sets() {
@@ -231,6 +231,13 @@ func EnumCases(tier string) (cases []ImportCase, rule string) {
 					// two flows - such renderings say nothing about the property and are left out
 					if cp, err := ref.Build(ref.Case{Set: set.Name, Devs: devs, Interleave: il, Link: "eth"}); err == nil && cp.MaxSilence() >= 5*time.Minute {
 						stretched++
+						continue
+					}
+				}
+				if len(devs) > 1 && hasKind(devs, "ka") {
+					// a keep-alive probe that another deviation moved in front of the data it repeats (see ProbeBeforeData)
+					if cp, err := ref.Build(ref.Case{Set: set.Name, Devs: devs, Interleave: il, Link: "eth"}); err == nil && cp.ProbeBeforeData() {
+						contradicting++
 						continue
 					}
 				}
@@ -332,6 +339,9 @@ func EnumCases(tier string) (cases []ImportCase, rule string) {
 	}
 	rule += fmt.Sprintf("Both tiers: default renderings cut into three files whose first two touch (equal timestamps across the first cut), imported one by one (%d cases; quick: second cut at most 3 packets after the first, or before the last packet). ", threeTouching)
 	rule += fmt.Sprintf("Default renderings with a frame that carries no stream (ARP, LLDP, ICMP echo, IPv4 frames that end inside their TCP / UDP header) in front of the first packet and in the middle, as one file and cut in front of the frame (%d cases). ", noiseCases)
+	if contradicting != 0 {
+		rule += fmt.Sprintf("%d renderings with two deviations are left out because the second deviation moves a keep-alive probe (one garbage byte at the sequence number of the last byte sent) in front of the data it repeats: two contradicting copies of one byte, which one a monitor keeps is its policy. ", contradicting)
+	}
 	if stretched != 0 {
 		rule += fmt.Sprintf("%d renderings with two deviations are left out because the deviations stretch an idle period of a conversation beyond the importer's inactivity timeout. ", stretched)
 	}
@@ -458,4 +468,13 @@ func firstLines(s string, n int) string {
 func Replay(ic ImportCase) ([]Finding, string) {
 	out := RunImportCase(ic)
 	return out.findings, out.canon
+}
+
+func hasKind(devs []ref.Dev, kind string) bool {
+	for _, d := range devs {
+		if d.Kind == kind {
+			return true
+		}
+	}
+	return false
 }
